@@ -157,6 +157,9 @@ func VerifRun_C08e() {
 	}
 	// bring the workspace to a state without unsaved edits
 	for fi, f := range files {
+		if unsaved[fi] && cur[fi] == disk[fi] {
+			continue // typed and undone: the buffer equals the file again, there is nothing to save
+		}
 		if unsaved[fi] {
 			txt := cur[fi]
 			verifVFSPut(f, []byte(txt))
